@@ -50,7 +50,7 @@ class Graph:
                 self.system = obj
             elif tg == "TR":
                 t = {"src": h(obj["src"]), "dst": h(obj["dst"]), "ev": obj["ev"],
-                     "ok": obj["ok"], "un": obj["un"], "fin": obj["fin"]}
+                     "ok": obj["ok"], "un": obj["un"], "fin": obj["fin"], "ctx": obj.get("ctx", "")}
                 if obj.get("first"):
                     self.init = t["src"]
                 self.trans.append(t)
@@ -119,11 +119,38 @@ class Graph:
             rng = rng or random.Random(1)
             rej = [x for x in out if x[0].startswith("reject")]
             acc = [x for x in out if not x[0].startswith("reject")]
-            rng.shuffle(rej)
-            rng.shuffle(acc)
             nrej = min(len(rej), limit // 2)
-            out = rej[:nrej] + acc[:limit - nrej]
+            out = _stratified(rej, nrej, rng) + _stratified(acc, limit - nrej, rng)
         return out
+
+
+def _stratified(items, n, rng):
+    """Sample n histories so that every stratum (event, thread-local context of the source state, kind)
+    is represented before any stratum gets a second member."""
+    groups = {}
+    for x in items:
+        t = x[2]
+        key = (x[0], json.dumps(t["ev"], sort_keys=True), t.get("ctx", "")) if t else ("extra",)
+        groups.setdefault(key, []).append(x)
+    keys = sorted(groups)
+    rng.shuffle(keys)
+    for k in keys:
+        rng.shuffle(groups[k])
+    out = []
+    rnd = 0
+    while len(out) < n:
+        added = False
+        for k in keys:
+            g = groups[k]
+            if rnd < len(g):
+                out.append(g[rnd])
+                added = True
+                if len(out) >= n:
+                    break
+        if not added:
+            break
+        rnd += 1
+    return out
 
 
 def explore(cfg, workers=None, timeout=3000, module="EmuMC"):
